@@ -346,6 +346,108 @@ func ruleR091(c *Ctx) {
 		c.Undecided("value#slice-writes", token.NoPos, "only %d in-place writes and %d list constructions found", nA, nC)
 	}
 
+	// (b0) every append whose first operand is existing list storage may write into spare capacity:
+	// it has to be the cache field itself, read while the list's mutex is held (the trim of part b
+	// then happens in the same critical section). A slice header that was read from the cache by an
+	// accessor (getItems) is a snapshot: after the mutex is released another append may already have
+	// used the spare slot.
+	nB0 := 0
+	listType := LookupType(vp, "List")
+	forEachFuncBody([]*packages.Package{vp}, func(pkg *packages.Package, fn ast.Node, body *ast.BlockStmt) {
+		fname := c.FuncName(fn) + litSuffix(c, fn)
+		inspectNoLit(body, func(x ast.Node) bool {
+			call, ok := x.(*ast.CallExpr)
+			if !ok || len(call.Args) < 2 {
+				return true
+			}
+			id, ok := ast.Unparen(call.Fun).(*ast.Ident)
+			if !ok || id.Name != "append" {
+				return true
+			}
+			if _, isB := info.Uses[id].(*types.Builtin); !isB {
+				return true
+			}
+			a0 := ast.Unparen(call.Args[0])
+			if !isValueSlice(info.TypeOf(a0)) {
+				return true
+			}
+			if se, ok := a0.(*ast.SliceExpr); ok {
+				if se.Slice3 && se.Max != nil && se.High != nil && nodeStr(c.Fset, se.Max) == nodeStr(c.Fset, se.High) {
+					return true // capacity limited: append copies
+				}
+				if se.High != nil {
+					return true // x[:i]: overwrites elements, part (a) delete-by-append
+				}
+				a0 = ast.Unparen(se.X)
+			}
+			lid, isLocal := a0.(*ast.Ident)
+			if !isLocal {
+				return true // the cache field itself: lock set R06.2 and trim (b)
+			}
+			obj := info.ObjectOf(lid)
+			// does the local hold a snapshot of the cache of a list?
+			snapshot := ""
+			heldBy := c.lockHolds(info, fn, body)
+			ast.Inspect(funcBody(fn), func(n ast.Node) bool {
+				as, ok := n.(*ast.AssignStmt)
+				if !ok {
+					return true
+				}
+				for i, l := range as.Lhs {
+					li, ok := l.(*ast.Ident)
+					if !ok || info.ObjectOf(li) != obj {
+						continue
+					}
+					var rhs ast.Expr
+					if len(as.Rhs) == len(as.Lhs) {
+						rhs = as.Rhs[i]
+					} else if len(as.Rhs) == 1 && i == 0 {
+						rhs = as.Rhs[0]
+					}
+					if rhs == nil {
+						continue
+					}
+					rhs = ast.Unparen(rhs)
+					for {
+						if se, ok := rhs.(*ast.SliceExpr); ok && !se.Slice3 {
+							rhs = ast.Unparen(se.X)
+							continue
+						}
+						break
+					}
+					switch t := rhs.(type) {
+					case *ast.SelectorExpr:
+						if s, ok := info.Selections[t]; ok && s.Kind() == types.FieldVal && listType != nil {
+							if nm := namedOf(info.TypeOf(t.X)); nm != nil && nm.Obj() == listType && isValueSlice(s.Obj().Type()) {
+								if l := heldBy(as); l != nil && l == heldBy(call) {
+									continue // copied and used inside one critical section
+								}
+								snapshot = "the cache field " + nodeStr(c.Fset, t)
+							}
+						}
+					case *ast.CallExpr:
+						if cal := Callee(info, t); cal != nil && listType != nil {
+							if sig, ok := cal.Type().(*types.Signature); ok && sig.Recv() != nil {
+								if nm := namedOf(sig.Recv().Type()); nm != nil && nm.Obj() == listType && c.returnsCacheField(vp, cal) {
+									snapshot = "the result of " + cal.Name() + ", which hands out the cache slice with its spare capacity"
+								}
+							}
+						}
+					}
+				}
+				return true
+			})
+			if snapshot == "" {
+				return true
+			}
+			nB0++
+			key := fmt.Sprintf("%s#append-to-snapshot:%s", fname, lid.Name)
+			c.Violation(key, call.Pos(), "append(%s, …) may write into the spare capacity of the storage of an existing list, but %s was copied from %s, i.e. outside the critical section that trims the parent's capacity: two evaluations appending to the same (constant or shared) list both see the spare slot and overwrite each other's element", lid.Name, lid.Name, snapshot)
+			return true
+		})
+	})
+	_ = nB0
+
 	// (b) the one in-place append into spare capacity caps the parent
 	appendDecl := c.FuncDecl(vp, "List", "Append")
 	key := "value.List.Append#cap-trim"
@@ -356,7 +458,14 @@ func ruleR091(c *Ctx) {
 		var app *ast.CallExpr
 		var trim *ast.AssignStmt
 		isItems := func(e ast.Expr) bool {
-			sel, ok := ast.Unparen(e).(*ast.SelectorExpr)
+			e = ast.Unparen(e)
+			if id, ok := e.(*ast.Ident); ok {
+				// a local copy of the slice header taken in this function
+				if as, i := definingAssign(info, appendDecl, info.ObjectOf(id)); as != nil && len(as.Lhs) == len(as.Rhs) {
+					e = ast.Unparen(as.Rhs[i])
+				}
+			}
+			sel, ok := e.(*ast.SelectorExpr)
 			return ok && sel.Sel.Name == "items"
 		}
 		ast.Inspect(appendDecl.Body, func(n ast.Node) bool {
@@ -366,7 +475,7 @@ func ruleR091(c *Ctx) {
 					app = t
 				}
 			case *ast.AssignStmt:
-				if len(t.Lhs) == 1 && len(t.Rhs) == 1 && isItems(t.Lhs[0]) {
+				if _, isSel := ast.Unparen(t.Lhs[0]).(*ast.SelectorExpr); isSel && len(t.Lhs) == 1 && len(t.Rhs) == 1 && isItems(t.Lhs[0]) {
 					if se, ok := ast.Unparen(t.Rhs[0]).(*ast.SliceExpr); ok && se.Slice3 && isItems(se.X) {
 						lenItems := "len(" + nodeStr(c.Fset, se.X) + ")"
 						if nodeStr(c.Fset, se.High) == lenItems && nodeStr(c.Fset, se.Max) == lenItems {
@@ -396,12 +505,12 @@ func ruleR091(c *Ctx) {
 					continue
 				}
 				be, ok := ast.Unparen(gd.Cond).(*ast.BinaryExpr)
-				lenI, capI := "len(l.items)", "cap(l.items)"
-				if sel := ast.Unparen(trim.Lhs[0]); sel != nil {
-					lenI, capI = "len("+nodeStr(c.Fset, sel)+")", "cap("+nodeStr(c.Fset, sel)+")"
-				}
-				if ok && gd.Val && (be.Op == token.NEQ || be.Op == token.LSS) && nodeStr(c.Fset, be.X) == lenI && nodeStr(c.Fset, be.Y) == capI {
-					continue
+				if ok && gd.Val && (be.Op == token.NEQ || be.Op == token.LSS) {
+					lc, okL := ast.Unparen(be.X).(*ast.CallExpr)
+					cc, okC := ast.Unparen(be.Y).(*ast.CallExpr)
+					if okL && okC && len(lc.Args) == 1 && len(cc.Args) == 1 && nodeStr(c.Fset, lc.Fun) == "len" && nodeStr(c.Fset, cc.Fun) == "cap" && isItems(lc.Args[0]) && isItems(cc.Args[0]) {
+						continue
+					}
 				}
 				bad = txt
 			}
@@ -787,4 +896,44 @@ func (c *Ctx) privateListMap(pkg *packages.Package, fn ast.Node, e ast.Expr, lmN
 		return okAll && seen
 	}
 	return false
+}
+
+// returnsCacheField: the method returns a []Value field of its receiver as is
+// (uncapped), e.g. getItems.
+func (c *Ctx) returnsCacheField(vp *packages.Package, fn *types.Func) bool {
+	var fd *ast.FuncDecl
+	for _, f := range vp.Syntax {
+		for _, d := range f.Decls {
+			if x, ok := d.(*ast.FuncDecl); ok && vp.TypesInfo.Defs[x.Name] == fn.Origin() {
+				fd = x
+			}
+		}
+	}
+	if fd == nil || fd.Body == nil {
+		return false
+	}
+	info := vp.TypesInfo
+	found := false
+	inspectNoLit(fd.Body, func(n ast.Node) bool {
+		r, ok := n.(*ast.ReturnStmt)
+		if !ok {
+			return true
+		}
+		for _, res := range r.Results {
+			e := ast.Unparen(res)
+			if se, ok := e.(*ast.SliceExpr); ok {
+				if se.Slice3 {
+					continue
+				}
+				e = ast.Unparen(se.X)
+			}
+			if sel, ok := e.(*ast.SelectorExpr); ok && isValueSlice(info.TypeOf(sel)) {
+				if s, ok := info.Selections[sel]; ok && s.Kind() == types.FieldVal {
+					found = true
+				}
+			}
+		}
+		return true
+	})
+	return found
 }
